@@ -3,7 +3,7 @@ let () =
   try
     while true do
       let line = input_line stdin in
-      let toks = List.filter (fun s -> s <> "") (String.split_on_char ' ' line) in
+      let toks = Stdlib.List.filter (fun s -> s <> "") (Stdlib.String.split_on_char ' ' line) in
       let out = try Handlers.handle toks with e -> "!exn " ^ Printexc.to_string e in
       print_string out; print_char '\n'; flush stdout
     done
